@@ -390,6 +390,56 @@ func runC10x(r *emit.Rand) {
 		}
 		c.Close()
 	}
+	// a request WITH A BODY that is answered from the store (nothing is sent upstream, so nobody else reads the body): the
+	// body is payload of that exchange — the next request on the tunnel gets its own answer, the origin sees nothing new
+	for i, chunkedBody := range []bool{false, true} {
+		warm := fmt.Sprintf("/hit-with-body-%d/a1", i)
+		next := fmt.Sprintf("/hit-with-body-%d/b2", i)
+		smug := fmt.Sprintf("/smuggled-by-hit-%d", i)
+		if c0, _, err := env.DialTunnel(env.Origin.Addr, "127.0.0.1", 8*time.Second); err == nil {
+			c0.Send(env.TunnelRequest("GET", warm, nil, nil), 5*time.Second) // store it
+			c0.Read("GET", 6*time.Second)
+			c0.Close()
+		}
+		c, _, err := env.DialTunnel(env.Origin.Addr, "127.0.0.1", 8*time.Second)
+		if err != nil {
+			panic(err)
+		}
+		inner := "GET " + smug + " HTTP/1.1\r\nHost: " + env.Origin.Addr + "\r\n\r\n"
+		first := "GET " + warm + " HTTP/1.1\r\nHost: " + env.Origin.Addr + "\r\n"
+		if chunkedBody {
+			first += "Transfer-Encoding: chunked\r\n\r\n" + fmt.Sprintf("%x\r\n%s\r\n0\r\n\r\n", len(inner), inner)
+		} else {
+			first += fmt.Sprintf("Content-Length: %d\r\n\r\n%s", len(inner), inner)
+		}
+		env.Origin.ResetLog()
+		c.Send([]byte(first), 5*time.Second)
+		total++
+		dist["hit-with-body-then-next"]++
+		det := map[string]any{"first": "GET " + warm + " (stored) carrying a body that looks like GET " + smug, "chunked_body": chunkedBody, "second": "GET " + next}
+		r1, err1 := c.Read("GET", 5*time.Second)
+		if err1 == nil {
+			det["first_status"], det["first_x_cache"] = r1.Status, r1.Header.Get("X-Cache")
+			if !r1.Close {
+				c.Send(env.TunnelRequest("GET", next, nil, nil), 5*time.Second)
+				r2, err2 := c.Read("GET", 5*time.Second)
+				if err2 != nil {
+					fail("hit-with-body-then-next", det, fmt.Sprintf("the exchange after a request with a body that was answered from the store got no response: %v", err2))
+				} else if r2.Header.Get("X-Target") != next {
+					det["second_status"], det["second_x_target"] = r2.Status, r2.Header.Get("X-Target")
+					fail("hit-with-body-then-next", det, "the exchange after a request with a body that was answered from the store did not get its own answer (the body was read as a request)")
+				}
+			}
+		}
+		c.Close()
+		for _, lr := range env.Origin.Log() {
+			if strings.Contains(lr.Target, "smuggled") {
+				det["origin_saw"] = lr.Method + " " + lr.Target
+				fail("hit-with-body-then-next", det, "the origin received a request the client never sent: the body of a request answered from the store was parsed as the next request of the tunnel")
+				break
+			}
+		}
+	}
 	// an upload well beyond any header budget (1.2 MiB, sized and chunked), then another exchange on the same tunnel
 	for i, chunkedUp := range []bool{false, true} {
 		c, _, err := env.DialTunnel(env.Origin.Addr, "127.0.0.1", 8*time.Second)
